@@ -127,6 +127,21 @@ func c11Negatives() []*RejectCase {
 		f.Stub = true
 		return ifc, []Ref{ItemRef(f.ID), ItemRef(b.Bind(ifc, c).ID)}
 	})
+	mk("missing-method-pointer-type", func(b *PB) (*Ty, []Ref) {
+		c := b.Carrier(0, "Conc")
+		other := b.Carrier(0, "OtherImpl")
+		ifc := b.Iface(0, "Iface", other, true) // pointer-receiver method on OtherImpl only
+		f := b.Func(0, "NewConc", PtrTo(c), false, false)
+		f.Stub = true
+		return ifc, []Ref{ItemRef(f.ID), ItemRef(b.Bind(ifc, PtrTo(c)).ID)}
+	})
+	mk("wrong-method-name-pointer-type", func(b *PB) (*Ty, []Ref) {
+		c := b.Carrier(0, "Conc")
+		_ = b.Iface(0, "Unrelated", c, true) // *Conc has some method, but not the one Iface needs
+		other := b.Carrier(0, "OtherImpl")
+		ifc := b.Iface(0, "Iface", other, false)
+		return ifc, []Ref{ItemRef(b.Value(PtrTo(c)).ID), ItemRef(b.Bind(ifc, PtrTo(c)).ID)}
+	})
 	mk("first-arg-not-interface", func(b *PB) (*Ty, []Ref) {
 		c := b.Carrier(0, "Conc")
 		d := b.Carrier(0, "NotIface")
